@@ -18,6 +18,7 @@ import (
 	"encoding/hex"
 	"flag"
 	"fmt"
+	"hash/fnv"
 	"os"
 	"os/exec"
 	"sort"
@@ -37,6 +38,13 @@ const (
 	allocBase  = 48 << 20 // bytes one input may allocate regardless of its size ...
 	allocPerIn = 2048     // ... plus this many bytes per input byte
 )
+
+// fnv64 hashes a case line (the distinct-case set keeps hashes, not the lines).
+func fnv64(s string) uint64 {
+	h := fnv.New64a()
+	_, _ = h.Write([]byte(s))
+	return h.Sum64()
+}
 
 func hx(b []byte) string {
 	if len(b) == 0 {
@@ -62,7 +70,7 @@ type runner struct {
 	res     *hlib.Result
 	wd      *codeclib.Watchdog
 	current *os.File
-	seen    map[string]bool
+	seen    map[uint64]bool
 	maxA    map[string]uint64
 }
 
@@ -238,7 +246,7 @@ func child(seed uint64, cases int, out, replay, corpus, currentPath string) {
 	res := hlib.NewResult("codecxdrv", seed)
 	res.Rule = "EXPLORATION. One case = one byte string fed to one boundary entry point (target) together with the node's next processing step; inputs are valid encodings (built in-process, repository testdata, base64 literals harvested from the repository's tests) with 1-3 stacked mutations (generic: bit flips, interesting bytes, 16/32/64-bit length windows, truncation, extension, deletion, insertion, duplication, splice; CBOR-aware: declared count/length changes incl. huge, indefinite lengths, tags, nesting 1..5000, duplicated map pairs, major-type swaps), a few unmutated seeds and random strings; for *-resigned, chunk and rhp-body targets the mutant is re-signed / re-compressed / re-framed so that it gets past the integrity check; non-trivial = the entry point decoded the bytes (outcome other than a decode/envelope rejection); distinct by (target, bytes)"
 	res.Explanation = "EXPLORATION ONLY (search for a failing input; no theorem covers these decoders): panic / fatal error / timeout / allocation blow-up detection on third-party and reflection-driven decode boundaries, plus run-time probes that the pinned strict CBOR options are in force"
-	rn := &runner{targets: map[string]*target{}, res: res, seen: map[string]bool{}, maxA: map[string]uint64{}}
+	rn := &runner{targets: map[string]*target{}, res: res, seen: map[uint64]bool{}, maxA: map[string]uint64{}}
 	if currentPath != "" {
 		rn.current, _ = os.OpenFile(currentPath, os.O_CREATE|os.O_RDWR, 0o644)
 	}
@@ -278,8 +286,8 @@ func child(seed uint64, cases int, out, replay, corpus, currentPath string) {
 		t := strings.Fields(line)[0]
 		res.Count("case:" + t)
 		res.Count("outcome:" + t + ":" + class)
-		if !strings.HasPrefix(class, "rejected:decode") && !strings.HasPrefix(class, "rejected:envelope") && class != "rejected" && !rn.seen[line] {
-			rn.seen[line] = true
+		if !strings.HasPrefix(class, "rejected:decode") && !strings.HasPrefix(class, "rejected:envelope") && class != "rejected" && !rn.seen[fnv64(line)] {
+			rn.seen[fnv64(line)] = true
 			res.Distinct++
 		}
 		if f.Sig != "" {
